@@ -352,8 +352,28 @@ def do_lanczos_ortho(ctx, rng):
         ovs.append(npc.Array.from_ndarray(full, [p['leg']], qtotal=list(p['sector']), labels=['x'], cutoff=0.))
     ov_before = [o.to_ndarray().copy() for o in ovs]
     opts = {'N_min': 2, 'N_max': len(idx) + 3, 'reortho': True}
-    case = describe(p, dict(opts, n_ortho=k))
-    op = OrthogonalNpcLinearOperator(RecOp(p['A']), ovs)
+    inner = RecOp(p['A'])
+    inner_kind = 'plain'
+    r_ = rng.random()
+    if r_ < 0.5:
+        # the projector wraps another wrapper: the operator given is P (A1 + A2) P resp. P (A' + s) P with A1 + A2 = A' + s = A
+        from tenpy.linalg.sparse import SumNpcLinearOperator, ShiftNpcLinearOperator
+        if r_ < 0.3:
+            f_ = float(rng.uniform(0.2, 0.8))
+            inner = SumNpcLinearOperator(RecOp(p['A'] * f_), RecOp(p['A'] * (1. - f_)))
+            inner_kind = 'sum'
+        else:
+            s_ = float(rng.choice([-1.5, 2.0]))
+            eye_ = npc.eye_like(p['A'], labels=p['A'].get_leg_labels())
+            inner = ShiftNpcLinearOperator(RecOp(p['A'] - s_ * eye_), s_)
+            inner_kind = 'shift'
+        ctx.count('ortho.nested_wrappers')
+    if rng.random() < 0.5:
+        # (documented use with a projector: the shift makes the spectrum negative, so that the projected-out vectors -- eigenvalue 0 of
+        #  P (A + E_shift) P -- stay above the wanted state)
+        opts['E_shift'] = -float(np.max(np.abs(lam))) - float(rng.choice([0.5, 2.0]))
+    case = describe(p, dict(opts, n_ortho=k, inner=inner_kind))
+    op = OrthogonalNpcLinearOperator(inner, ovs)
     # start vector orthogonal to ortho_vecs
     v0 = p['v0'].copy()
     for o in ov_before:
@@ -441,10 +461,52 @@ def do_evolution(ctx, rng):
     return p, opts, 'evolution'
 
 
+def do_arnoldi_one_dim(ctx, rng, p):
+    """Krylov space of dimension one (start vector is an eigenvector / N_max = 1): the single Ritz value is the Rayleigh quotient of the
+    operator given, whatever E_shift is."""
+    from tenpy.linalg.krylov_based import Arnoldi
+    from tenpy.linalg import np_conserved as npc
+    idx = p['idx']
+    mode = 'eigenvector'  # (N_max = 1 is refused by the solver: 'Should perform at least 2 steps')
+    if mode == 'eigenvector':
+        w, V = np.linalg.eig(p['d'][np.ix_(idx, idx)])
+        j = int(rng.integers(len(w)))
+        full = np.zeros(p['n'], dtype=complex)
+        full[idx] = V[:, j]
+        if np.all(np.abs(full.imag) < 1e-14):
+            full = full.real
+        A = p['A'] if not np.iscomplexobj(full) else p['A'].astype(np.complex128)
+        psi0 = npc.Array.from_ndarray(full, [p['leg']], qtotal=list(p['sector']), labels=['x'], cutoff=0.)
+        opts = {'N_min': 2, 'N_max': 5, 'which': 'LM', 'num_ev': 1}
+    else:
+        A, psi0, full = p['A'], p['psi0'].copy(), p['v0']
+        opts = {'N_min': 1, 'N_max': 1, 'which': 'LM', 'num_ev': 1}
+    if rng.random() < 0.7:
+        opts['E_shift'] = float(rng.choice([-2., 1.5, 4.]))
+    case = describe(p, dict(opts, mode=mode))
+    ctx.count('arnoldi.one_dimensional')
+    try:
+        Es, psis, N = Arnoldi(RecOp(A), psi0, dict(opts)).run()
+    except Exception as e:
+        ctx.violation('arnoldi:one-dimensional:raises-%s' % type(e).__name__, traceback.format_exc()[-600:], case)
+        return
+    v = psis[0].to_ndarray() if len(psis) else None
+    E = np.atleast_1d(Es)[0]
+    if v is None or not (abs(np.linalg.norm(v) - 1) <= 1e-7):
+        ctx.violation('arnoldi:one-dimensional:not-normalised', '', case)
+        return
+    rq = np.vdot(v, p['d'] @ v)
+    if N == 1 and not (abs(E - rq) <= 1e-7 * max(1.0, abs(rq))):
+        ctx.violation('arnoldi:one-dimensional:ritz-value-is-not-the-rayleigh-quotient', 'E %r, <v|A|v> %r (E_shift %r)' % (E, rq, opts.get('E_shift')), case)
+
+
 def do_arnoldi(ctx, rng):
     from tenpy.linalg.krylov_based import Arnoldi
     herm = rng.random() < 0.3
     p = gen_problem(ctx, rng, hermitian=herm, max_dim=30)
+    if p is not None and rng.random() < 0.25:
+        do_arnoldi_one_dim(ctx, rng, p)
+        return p, {}, 'arnoldi'
     if p is None or len(p['idx']) < 2:
         raise _Skip()
     dim = len(p['idx'])
